@@ -28,6 +28,8 @@ func C03(c *Ctx) {
 	r.Rule("C03/R3", "deterministic expansion", 2)
 	r.Rule("C03/R4", "the submitted result must carry the unchanged request payload", 3)
 	r.Rule("C03/R5", "the proposal's tasks re-encode exactly: store, signer and reconstruction decode the same list (no omitempty/dropped field, no one-sided marshaler)", 3)
+	r.Rule("C03/R6", "the record stored next to a proposal's payload can be replaced only by its author: received signature entries are attributed to the verified sender and the envelope's round, unconditionally (= C08/R3 attribution)", 3)
+	c08SignatureAttribution(c, "C03/R6")
 	c03Reencode(c)
 
 	// R1 constructors of MessageToSign (any store into its fields)
